@@ -33,8 +33,8 @@ Qed.
 
 Lemma lf_step_round_ge : forall fixed nodes ss st e, ll_round st <= ll_round (lf_step fixed nodes ss st e).
 Proof.
-  intros fixed nodes ss st [batch|r|batch|]; cbn; try apply lf_recv_spec; try lia.
-  destruct ss; [apply lf_recv_spec|lia].
+  intros fixed nodes ss st [batch|r|batch|]; cbn [lf_step]; try (apply (proj1 (lf_recv_spec _ _))); try lia.
+  destruct ss; [apply (proj1 (lf_recv_spec _ _))|lia].
 Qed.
 
 Fixpoint lf_nondecreasing (prev : Z) (l : list Z) : Prop :=
@@ -52,35 +52,138 @@ Proof.
 Qed.
 
 (* draining a batch in one go gives the same ticket as receiving its entries one by one *)
-Lemma lf_recv_cons : forall st x tl, lf_recv st (x :: tl) = lf_recv (lf_recv st [x]) tl.
-Proof.
-  intros st x tl. revert st x. induction tl as [|y tl IH]; intros st x.
-  - cbn. destruct (Z.leb (ll_round x) (ll_round st)); reflexivity.
-  - (* compare on the first two entries *)
-    change (lf_recv st (x :: y :: tl)) with
-      (let best := lf_pick ll_round x (y :: tl) in if Z.leb (ll_round best) (ll_round st) then st else best).
-    cbn [lf_pick]. cbn [lf_recv lf_pick].
-    destruct (Z.leb_spec (ll_round x) (ll_round st)) as [Hx|Hx].
-    + (* x is ignored *)
-      destruct (Z.ltb_spec (ll_round x) (ll_round y)) as [Hy|Hy].
-      * reflexivity.
-      * (* y <= x <= st: y is ignored as well; both sides continue with tl from x resp. st *)
-        specialize (IH st x). cbn [lf_recv] in IH.
-        destruct (Z.leb_spec (ll_round x) (ll_round st)); [|lia].
-        rewrite IH. cbn [lf_pick].
-        destruct tl as [|z tl'].
-        -- cbn. destruct (Z.leb_spec (ll_round y) (ll_round st)); [reflexivity|lia].
-        -- cbn [lf_recv].
-           destruct (lf_pick_spec ll_round tl' z) as (_ & Pz & _).
-           destruct (lf_pick_spec ll_round (z :: tl') y) as (Py1 & Py2 & Py3). cbn zeta in *.
-           cbn [lf_pick] in *.
-           destruct (Z.ltb_spec (ll_round y) (ll_round z)); [reflexivity|].
-           (* y stays best only if nothing in tl' beats it: then the pick from y is <= st, as is the pick from z *)
-           admit.
-    + admit.
-Abort.
+Definition lf_take (s x : lf_latest) : lf_latest := if Z.leb (ll_round x) (ll_round s) then s else x.
 
-(* the same statement, proved through a characterisation of the result: the first entry whose
-   round exceeds the current one and is the greatest of the batch *)
+Lemma lf_pick_fold : forall st l best,
+  lf_take st (lf_pick ll_round best l) = fold_left lf_take l (lf_take st best).
+Proof.
+  intros st. induction l as [|y tl IH]; intros best; cbn [lf_pick fold_left]; [reflexivity|].
+  destruct (Z.ltb_spec (ll_round best) (ll_round y)) as [H|H]; rewrite IH; f_equal; unfold lf_take;
+    destruct (Z.leb_spec (ll_round best) (ll_round st));
+    repeat match goal with
+           | |- context [Z.leb ?a ?b] => destruct (Z.leb_spec a b)
+           end; try reflexivity; try lia.
+Qed.
+
+Lemma lf_recv_fold : forall st l, lf_recv st l = fold_left lf_take l st.
+Proof.
+  intros st [|x tl]; [reflexivity|]. cbn [lf_recv fold_left].
+  change (if Z.leb (ll_round (lf_pick ll_round x tl)) (ll_round st) then st else lf_pick ll_round x tl)
+    with (lf_take st (lf_pick ll_round x tl)).
+  apply lf_pick_fold.
+Qed.
+
 Lemma lf_recv_app : forall st l1 l2, lf_recv st (l1 ++ l2) = lf_recv (lf_recv st l1) l2.
-Proof. Abort.
+Proof. intros. rewrite !lf_recv_fold. apply fold_left_app. Qed.
+
+(* so a remote batch can be split at any point into smaller batches: the state reached is the same *)
+Lemma lf_remote_batch_split : forall fixed nodes ss st b1 b2,
+  lf_step fixed nodes ss st (LfRemote (b1 ++ b2)) =
+  lf_step fixed nodes ss (lf_step fixed nodes ss st (LfRemote b1)) (LfRemote b2).
+Proof. intros. cbn. rewrite filter_app, map_app. apply lf_recv_app. Qed.
+
+(* ------------------------------------------------------------------------------------------ *)
+(* authenticity *)
+
+(* a ticket held as "remote" was posted in some remote batch and passed the handler's check *)
+Definition lf_posted (evs : list lf_event) (t : lf_ticket) : Prop :=
+  exists batch, In (LfRemote batch) evs /\ In t batch.
+
+Definition lf_backed (fixed : bool) (nodes : list lf_node) (evs : list lf_event) (st : lf_latest) : Prop :=
+  forall s, ll_origin st = ORemote s ->
+    exists t, lf_posted evs t /\ lf_verify fixed nodes t = true /\ lf_of_ticket t = st.
+
+Lemma lf_step_backed : forall fixed nodes ss evs st e, In e evs ->
+  lf_backed fixed nodes evs st -> lf_backed fixed nodes evs (lf_step fixed nodes ss st e).
+Proof.
+  intros fixed nodes ss evs st e Hin Hb.
+  assert (forall batch, (forall x, In x batch -> lf_backed fixed nodes evs x) ->
+            lf_backed fixed nodes evs (lf_recv st batch)) as G.
+  { intros batch Hall. destruct (lf_recv_spec st batch) as [_ [->|[Hi _]]]; [assumption|auto]. }
+  destruct e as [batch|r|batch|]; cbn.
+  - apply G. intros x Hx. rewrite in_map_iff in Hx. destruct Hx as (t & <- & Ht).
+    apply filter_In in Ht. destruct Ht as [Ht Hv].
+    intros s Hs. exists t. split; [exists batch; split; assumption|]. split; [assumption|reflexivity].
+  - apply G. intros x [<-|[]]. intros s Hs. discriminate.
+  - destruct ss; [|assumption]. apply G. intros x Hx. rewrite in_map_iff in Hx.
+    destruct Hx as (rh & <- & _). intros s Hs. discriminate.
+  - assumption.
+Qed.
+
+Lemma lf_run_backed : forall fixed nodes ss all evs st,
+  (forall e, In e evs -> In e all) -> lf_backed fixed nodes all st ->
+  Forall (lf_backed fixed nodes all) (lf_run fixed nodes ss st evs).
+Proof.
+  intros fixed nodes ss all. induction evs as [|e tl IH]; intros st Hsub Hb; cbn; [constructor|].
+  assert (lf_backed fixed nodes all (lf_step fixed nodes ss st e)) as H1.
+  { apply lf_step_backed; [apply Hsub; now left|assumption]. }
+  constructor; [assumption|]. apply IH; [intros; apply Hsub; now right|assumption].
+Qed.
+
+(* every remote ticket ever reported was posted to the handler and verified by it: its signer
+   is a registered node and its signature is valid for that node *)
+Lemma lf_adopts_only_verified : forall fixed nodes ss round hash evs,
+  Forall (lf_backed fixed nodes evs) (lf_run fixed nodes ss (lf_init round hash) evs).
+Proof.
+  intros. apply lf_run_backed; [auto|]. intros s Hs. discriminate.
+Qed.
+
+Lemma lf_verify_signer : forall fixed nodes t, lf_verify fixed nodes t = true ->
+  exists n, lf_find nodes (lf_signer t) = Some n /\ lf_sig_ok t = true /\ (fixed = true -> lf_is_mb_sharder n = true).
+Proof.
+  intros fixed nodes t H. unfold lf_verify in H. destruct (lf_find nodes (lf_signer t)) as [n|]; [|discriminate].
+  apply andb_true_iff in H. destruct H as [H1 H2]. exists n. split; [reflexivity|]. split; [assumption|].
+  intros ->. assumption.
+Qed.
+
+(* "a reported remote ticket is signed by a sharder of the current magic block" *)
+Definition lf_signer_is_current_sharder (fixed : bool) : Prop :=
+  forall nodes ss round hash evs st s, In st (lf_run fixed nodes ss (lf_init round hash) evs) ->
+    ll_origin st = ORemote s ->
+    exists n, lf_find nodes s = Some n /\ lf_is_mb_sharder n = true.
+
+Lemma lf_signer_is_current_sharder_refuted : ~ lf_signer_is_current_sharder false.
+Proof.
+  intros H.
+  specialize (H [ {| lf_nid := 7; lf_nkind := LfMiner; lf_in_mb := true |} ] true 1 0
+                [ LfRemote [ {| lf_round := 10; lf_signer := 7; lf_sig_ok := true; lf_hash := 3 |} ] ]
+                {| ll_round := 10; ll_origin := ORemote 7; ll_hash := 3 |} 7).
+  cbn in H. destruct (H (or_introl eq_refl) eq_refl) as (n & Hn & Hs).
+  inversion Hn; subst. discriminate.
+Qed.
+
+Lemma lf_signer_general : forall fixed nodes ss round hash evs st s,
+  In st (lf_run fixed nodes ss (lf_init round hash) evs) -> ll_origin st = ORemote s ->
+  exists n t, lf_find nodes s = Some n /\ lf_posted evs t /\ lf_signer t = s /\ lf_round t = ll_round st /\
+    lf_sig_ok t = true /\ (fixed = true -> lf_is_mb_sharder n = true).
+Proof.
+  intros fixed nodes ss round hash evs st s Hin Hs.
+  pose proof (lf_adopts_only_verified fixed nodes ss round hash evs) as Hall.
+  rewrite Forall_forall in Hall. destruct (Hall st Hin s Hs) as (t & Hp & Hv & E).
+  destruct (lf_verify_signer _ _ _ Hv) as (n & Hn & Hok & Hfx).
+  assert (lf_signer t = s) as Es by (rewrite <- E in Hs; cbn in Hs; congruence).
+  exists n, t. rewrite <- Es. split; [assumption|]. split; [assumption|]. split; [reflexivity|].
+  split; [rewrite <- E; reflexivity|]. split; assumption.
+Qed.
+
+(* outside the trigger - every registered node is a sharder of the current magic block - the
+   statement holds for the code as written *)
+Lemma lf_signer_is_current_sharder_partial : forall nodes ss round hash evs st s,
+  (forall n, In n nodes -> lf_is_mb_sharder n = true) ->
+  In st (lf_run false nodes ss (lf_init round hash) evs) -> ll_origin st = ORemote s ->
+  exists n, lf_find nodes s = Some n /\ lf_is_mb_sharder n = true.
+Proof.
+  intros nodes ss round hash evs st s Hall Hin Hs.
+  destruct (lf_signer_general false nodes ss round hash evs st s Hin Hs) as (n & t & Hn & _).
+  exists n. split; [assumption|]. apply Hall.
+  clear -Hn. induction nodes as [|m tl IH]; cbn in Hn; [discriminate|].
+  destruct (Z.eqb (lf_nid m) s); [inversion Hn; now left|right; auto].
+Qed.
+
+(* with the signer looked up among the current sharders the statement holds *)
+Lemma lf_signer_is_current_sharder_repaired : lf_signer_is_current_sharder true.
+Proof.
+  intros nodes ss round hash evs st s Hin Hs.
+  destruct (lf_signer_general true nodes ss round hash evs st s Hin Hs) as (n & t & Hn & _ & _ & _ & _ & Hfx).
+  exists n. split; [assumption|auto].
+Qed.
